@@ -30,6 +30,16 @@ func genScenario(t *rapid.T, kind string) LeaseScenario {
 			k := rapid.IntRange(1, 2*s.Periods-2).Draw(t, "k")
 			s.FailCas = []int{k, k + 2 + rapid.IntRange(0, 3).Draw(t, "gap")}
 		}
+		if rapid.IntRange(0, 5).Draw(t, "manyFaults") == 0 {
+			// a long tenure with many isolated failures, each repaired by its retry
+			s.Periods = rapid.IntRange(6, vstat.Pick(8, 12)).Draw(t, "longPeriods")
+			s.FailCas = nil
+			k := rapid.IntRange(1, 3).Draw(t, "firstK")
+			for len(s.FailCas) < 7 && k < 3*s.Periods {
+				s.FailCas = append(s.FailCas, k)
+				k += rapid.IntRange(2, 4).Draw(t, "gapK")
+			}
+		}
 		// the renewal scheme tolerates latency + failures only up to a point (retry after lease/8): keep the generated
 		// combination well inside it - "individual renewal attempts failed transiently" on a storage that answers
 		switch {
@@ -60,6 +70,9 @@ func genScenario(t *rapid.T, kind string) LeaseScenario {
 	case "relock":
 		s.After = rapid.Bool().Draw(t, "after")
 		s.HoldCreate = rapid.Bool().Draw(t, "holdCreate")
+	case "sharedhandoff":
+		s.Wait10 = rapid.IntRange(1, 9).Draw(t, "wait10")
+		s.After = rapid.Bool().Draw(t, "requestDelayed")
 	case "unlockfail":
 		s.Hold10 = rapid.IntRange(0, 14).Draw(t, "hold10")
 		s.Applied = rapid.IntRange(0, 3).Draw(t, "applied") == 0
@@ -78,7 +91,7 @@ func genScenario(t *rapid.T, kind string) LeaseScenario {
 }
 
 func recordLease(s LeaseScenario, info LeaseInfo) {
-	nt := (s.Kind == "hold" && info.InjectedFailures > 0) || s.Kind == "death" || s.Kind == "handoff" || s.Kind == "waithold" || (s.Kind == "bystander" && info.HeldInFlight) || (s.Kind == "unlockrace" && info.HeldInFlight) || (s.Kind == "relock" && info.HeldInFlight) || s.Kind == "unlockfail" || (s.Kind == "multi" && len(s.Unlocks) > 0)
+	nt := (s.Kind == "hold" && info.InjectedFailures > 0) || s.Kind == "death" || s.Kind == "handoff" || s.Kind == "waithold" || (s.Kind == "bystander" && info.HeldInFlight) || (s.Kind == "unlockrace" && info.HeldInFlight) || (s.Kind == "relock" && info.HeldInFlight) || s.Kind == "unlockfail" || (s.Kind == "multi" && len(s.Unlocks) > 0) || s.Kind == "sharedhandoff"
 	cl := []string{"scenario:" + s.Kind, fmt.Sprintf("lease_ms:%d", s.LeaseMs)}
 	if info.Retried > 0 {
 		cl = append(cl, "confirmed_only_after_retry")
@@ -141,7 +154,7 @@ func TestC05Rapid(t *testing.T) {
 		var batch []LeaseScenario
 		races := 0
 		for i := 0; i < n; i++ {
-			kind := rapid.SampledFrom([]string{"hold", "hold", "hold", "death", "death", "unlockrace", "relock", "unlockfail", "handoff", "handoff", "waithold", "bystander"}).Draw(rt, "kind")
+			kind := rapid.SampledFrom([]string{"hold", "hold", "hold", "death", "death", "unlockrace", "relock", "unlockfail", "handoff", "handoff", "waithold", "bystander", "sharedhandoff"}).Draw(rt, "kind")
 			if kind == "unlockrace" || kind == "bystander" || kind == "relock" || kind == "unlockfail" {
 				if races >= 3 { // every such scenario parks one worker of the timer pool for a while
 					kind = "hold"
@@ -186,6 +199,8 @@ func TestC05EveryK(t *testing.T) {
 	for _, inf := range []int{1, 2} {
 		batch = append(batch, LeaseScenario{Kind: "unlockfail", LeaseMs: lease, InFlight: inf})
 	}
+	batch = append(batch, LeaseScenario{Kind: "sharedhandoff", LeaseMs: lease, Wait10: 3}, LeaseScenario{Kind: "sharedhandoff", LeaseMs: lease, Wait10: 7, After: true},
+		LeaseScenario{Kind: "hold", LeaseMs: lease, Periods: 7, FailCas: []int{2, 5, 8, 11, 14, 17}})
 	for _, acq := range []string{"lockctx", "trylock"} {
 		batch = append(batch, LeaseScenario{Kind: "hold", LeaseMs: lease, Periods: 4, Acquire: acq})
 	}
@@ -234,6 +249,7 @@ func TestC01LongWaiter(t *testing.T) {
 	for _, acq := range []string{"lockctx", "trylock"} {
 		batch = append(batch, LeaseScenario{Kind: "hold", LeaseMs: 300, Periods: 3, Acquire: acq, OnlyExcl: true})
 	}
+	batch = append(batch, LeaseScenario{Kind: "sharedhandoff", LeaseMs: 300, Wait10: 2, OnlyExcl: true}, LeaseScenario{Kind: "sharedhandoff", LeaseMs: 300, Wait10: 6, After: true, OnlyExcl: true})
 	batch = append(batch, LeaseScenario{Kind: "hold", LeaseMs: 300, Periods: 3, Blocking: true, FailCreate: []int{1, -3, 6}, OnlyExcl: true})
 	// an ownerless record expires under several waiters: they must take the lock one at a time
 	for i := 0; i < vstat.Pick(4, 12); i++ {
